@@ -5,7 +5,7 @@
    on the released code the check reports the two defects as violations with concrete inputs. *)
 From Coq Require Import ZArith Reals Lra List Bool.
 From PW Require Import Num NumR Vec NpList Result.
-From PW.model Require Import M_line.
+From PW.model Require Import M_line M_line_spec.
 From PW.proofs Require Import P_vec P_line.
 Import ListNotations.
 Local Open Scope R_scope.
@@ -19,17 +19,6 @@ Theorem C18_projection_on_line_residual_perp_closest : forall p ref a, a <> v0 -
     forall s, vnorm2 ROps (vsub ROps p x) <= vnorm2 ROps (vsub ROps p (line_pt ref a s)).
 Proof. exact project_spec. Qed.
 
-(* many points against one line, and points and lines paired row by row: the single form on every row *)
-Theorem C18_projection_stacked_is_rowwise : forall ps ref a refs alongs k,
-  nth_error (project_points_to_line ROps ps ref a) k =
-    option_map (fun p => project_point_to_line ROps p ref a) (nth_error ps k) /\
-  nth_error (project_points_to_lines ROps ps refs alongs) k =
-    match nth_error ps k, nth_error refs k, nth_error alongs k with
-    | Some p, Some r, Some d => Some (project_point_to_line ROps p r d)
-    | _, _, _ => None
-    end.
-Proof. exact project_stacked_is_rowwise. Qed.
-
 (* Line rejects a zero direction; an accepted line stores point and direction; from_points / reference_points *)
 Theorem C18_line_rejects_zero_direction : forall p,
   line_ctor ROps p v0 = Raise ValueError /\
@@ -37,12 +26,23 @@ Theorem C18_line_rejects_zero_direction : forall p,
   (forall q, line_from_points ROps p q = line_ctor ROps p (vsub ROps q p)) /\
   (forall a, reference_points ROps (MkLine p a) = (p, vadd ROps p a)).
 Proof. exact line_rejects_zero_direction. Qed.
-(* Line.project and Line.intersect_line delegate *)
-Theorem C18_line_methods_delegate : forall l l' p,
-  line_project ROps l p = project_point_to_line ROps p (lref l) (lalong l) /\
-  line_intersect_line ROps l l' =
-    intersect_lines ROps (lref l) (vadd ROps (lref l) (lalong l)) (lref l') (vadd ROps (lref l') (lalong l')).
-Proof. intros; split; reflexivity. Qed.
+(* which directions Line accepts: exactly those with a component above 1e-8 (the binary64 constant) in absolute value *)
+Theorem C18_line_accepts_iff : forall p a,
+  (almost_zero ROps a = false -> line_ctor ROps p a = Ok (MkLine p a)) /\
+  (almost_zero ROps a = true -> line_ctor ROps p a = Raise ValueError) /\
+  (almost_zero ROps a = false <->
+   atol ROps < Rabs (vx a) \/ atol ROps < Rabs (vy a) \/ atol ROps < Rabs (vz a)).
+Proof. exact line_accepts_iff. Qed.
+(* "lines at any scale (direction vectors of any non-zero length)" is false of Line: it refuses non-zero directions
+   whose components are all at most 1e-8 (vg.almost_zero). Known finding C18 / line_rejects_tiny_nonzero_direction. *)
+Theorem C18_line_accepts_any_nonzero_direction_refuted :
+  exists p a, a <> v0 /\ line_ctor ROps p a = Raise ValueError.
+Proof. exact line_rejects_tiny_nonzero. Qed.
+(* lines built by Line.from_points: intersect_line is intersect_lines on the four defining points *)
+Theorem C18_from_points_intersect : forall p0 q0 p1 q1 l l',
+  line_from_points ROps p0 q0 = Ok l -> line_from_points ROps p1 q1 = Ok l' ->
+  line_intersect_line ROps l l' = intersect_lines ROps p0 q0 p1 q1.
+Proof. exact from_points_intersect. Qed.
 
 (* whenever intersect_lines returns a point, it lies on both lines *)
 Theorem C18_returned_point_on_both_lines : forall p0 q0 p1 q1 x, p0 <> q0 -> p1 <> q1 ->
@@ -67,6 +67,26 @@ Theorem C18_intersect_2d_spec : forall p0 q0 p1 q1,
                forall M, on_line2 p0 q0 M -> on_line2 p1 q1 M -> M = x).
 Proof. exact intersect_2d_spec. Qed.
 
+(* definitional: pins the shape of the model; the content is carried by the traced ties / correspondence ------------- *)
+(* many points against one line, and points and lines paired row by row: the single form on every row *)
+Theorem C18_projection_stacked_is_rowwise : forall ps ref a refs alongs k,
+  nth_error (project_points_to_line ROps ps ref a) k =
+    option_map (fun p => project_point_to_line ROps p ref a) (nth_error ps k) /\
+  nth_error (project_points_to_lines ROps ps refs alongs) k =
+    match nth_error ps k, nth_error refs k, nth_error alongs k with
+    | Some p, Some r, Some d => Some (project_point_to_line ROps p r d)
+    | _, _, _ => None
+    end.
+Proof. exact project_stacked_is_rowwise. Qed.
+
+(* Line.project and Line.intersect_line delegate *)
+Theorem C18_line_methods_delegate : forall l l' p,
+  line_project ROps l p = project_point_to_line ROps p (lref l) (lalong l) /\
+  line_intersect_line ROps l l' =
+    intersect_lines ROps (lref l) (vadd ROps (lref l) (lalong l)) (lref l') (vadd ROps (lref l') (lalong l')).
+Proof. exact line_methods_delegate. Qed.
+(* end of the definitional block ----------------------------------------------------------------------------------------- *)
+
 (* non-vacuity: the configuration on which the released code picks the wrong sign has a unique common point,
    (0, 1/3, 2/3), and the hypotheses of the completeness theorem hold for it *)
 Example C18_wrong_sign_configuration_meets :
@@ -79,7 +99,28 @@ Proof.
   unfold v0. cbn. intros E. injection E as E1 E2 E3. lra.
 Qed.
 
+(* non-vacuity of the other two conjuncts of the completeness theorem: parallel distinct lines, skew lines *)
+Example C18_parallel_distinct_inhabited :
+  let p0 := V3 0 1 2 in let q0 := V3 0 10 20 in let p1 := V3 1 2 3 in let q1 := V3 1 11 21 in
+  vcross ROps (vsub ROps p1 q1) (vsub ROps p0 q0) = v0 /\ ~ on_line p1 q1 p0.
+Proof.
+  cbv zeta. split; [unfold v0; cbn; apply V3_inj; cbn; ring|].
+  intros [s E]. unfold line_pt in E. cbn in E. injection E as E1 E2 E3. lra.
+Qed.
+Example C18_skew_inhabited :
+  let p0 := V3 0 1 0 in let q0 := V3 1 0 0 in let p1 := V3 0 0 1 in let q1 := V3 1 1 1 in
+  vdot ROps (vsub ROps p0 p1) (vcross ROps (vsub ROps p1 q1) (vsub ROps p0 q0)) <> 0.
+Proof. cbn. lra. Qed.
+(* a direction of any non-zero length meets the hypothesis of the projection theorem; Line accepts (2, 0, 0) *)
+Example C18_direction_inhabited : V3 (1 / 1000000000) 0 0 <> v0 /\ almost_zero ROps (V3 2 0 0) = false.
+Proof.
+  split; [intros E; unfold v0 in E; injection E as E; lra|].
+  unfold almost_zero, atol, nfrac; rops. cbn [vx vy vz]. rewrite (Rabs_pos_eq 2) by lra.
+  rewrite (proj2 (Rleb_false 2 _)) by lra. reflexivity.
+Qed.
+
 Definition C18_all := (C18_projection_on_line_residual_perp_closest, C18_projection_stacked_is_rowwise,
-  C18_line_rejects_zero_direction, C18_line_methods_delegate, C18_returned_point_on_both_lines,
+  C18_line_rejects_zero_direction, C18_line_accepts_iff, C18_line_accepts_any_nonzero_direction_refuted,
+  C18_from_points_intersect, C18_line_methods_delegate, C18_returned_point_on_both_lines,
   C18_intersect_lines_complete, C18_intersect_2d_spec).
 Print Assumptions C18_all.
